@@ -195,6 +195,41 @@ func (c *recCache) Set(_ context.Context, _ string, _ []byte, ttl time.Duration)
 
 var _ cache.Cache = (*recCache)(nil)
 
+// storeCache really stores (used by the concurrent part, where behaviour is not compared): executions
+// after the first one take the mechanisms' cache-hit paths.
+type storeCache struct {
+	mu sync.RWMutex
+	m  map[string][]byte
+}
+
+func (c *storeCache) Start(context.Context) error { return nil }
+func (c *storeCache) Stop(context.Context) error  { return nil }
+
+func (c *storeCache) Get(_ context.Context, key string) ([]byte, error) {
+	c.mu.RLock()
+	defer c.mu.RUnlock()
+
+	if v, ok := c.m[key]; ok {
+		return v, nil
+	}
+
+	return nil, errMiss
+}
+
+func (c *storeCache) Set(_ context.Context, key string, value []byte, _ time.Duration) error {
+	c.mu.Lock()
+	if c.m == nil {
+		c.m = map[string][]byte{}
+	}
+
+	c.m[key] = value
+	c.mu.Unlock()
+
+	return nil
+}
+
+var _ cache.Cache = (*storeCache)(nil)
+
 type fakeFuncs struct {
 	headers map[string]string
 	cookies map[string]string
